@@ -123,6 +123,12 @@ func TestVerifC14(t *testing.T) {
 			if _, ok := c["head_len"]; ok {
 				req = httptest.NewRequest(http.MethodHead, "/", nil)
 			}
+			if vBool(c["offer_upgrade"]) {
+				// the client OFFERS a protocol upgrade; the target declines and answers normally: nothing is upgraded, the
+				// exchange is buffered and limited like any other
+				req.Header.Set("Connection", "Upgrade")
+				req.Header.Set("Upgrade", "h2c")
+			}
 			w := httptest.NewRecorder()
 			filesDuring := []int64{}
 			_ = filesDuring
